@@ -86,3 +86,10 @@ Theorem C10_accessible_is_top_down_reachable : forall terms rules,
   (ReadGrammarSem.reachable (arules rules) n_axiom x <-> exists p, reach (cg terms rules) n_axiom p x).
 Proof. exact reachable_reach. Qed.
 Print Assumptions C10_accessible_is_top_down_reachable.
+
+(* what acceptance under strict checking means in the recognition theory: the grammar is reduced *)
+Theorem C10_strictly_accepted_grammars_are_reduced : forall terms rules, read_model true terms rules = 0%Z ->
+  Viable.productive (cg terms rules) /\
+  forall x, In x (nonterms terms rules) -> exists p, reach (cg terms rules) n_axiom p x.
+Proof. exact strict_accepted_is_reduced. Qed.
+Print Assumptions C10_strictly_accepted_grammars_are_reduced.
